@@ -350,7 +350,13 @@ def run_linear_sequence(ck, rng, model, seq_key, L):
     prev = None
     events = ["call"] * 9 + ["reset()", "reset(int)", "reset(tensor)", "systime=int", "systime=tensor",
                              "set_refpoint()", "set_refpoint(t)", "eval()/train()"]
+    kept = []           # time tensors handed to the system stay the caller's: later calls must not move them
     for step in range(L):
+        for (a_, v_, how_) in kept:
+            ck.count("systime_automaton", f"{kind}/argument_independent", key=(seq_key, step, id(a_)))
+            ck.check(int(a_) == v_, "systime_automaton", f"{kind}/argument_independent", f"{kind}.{how_}",
+                     "time_tensor_passed_by_caller_changed_later", {"assigned": v_, "now": int(a_), "step": step})
+        kept = [(a_, v_, h_) for (a_, v_, h_) in kept if int(a_) == v_][-3:]
         ev = events[int(rng.integers(len(events)))] if step else "call"
         regime = f"{fam}/{model.layout}/{model.dn}"
         if ev == "call":
@@ -383,11 +389,22 @@ def run_linear_sequence(ck, rng, model, seq_key, L):
             ck.call("systime_automaton", regime, f"{kind}.reset", lambda: s.reset(arg) if rng.random() < 0.5 else s.reset(t=arg))
             auto.set(t)
             after_event(ck, s, auto, kind, ev, seq_key, step)
+            if isinstance(arg, torch.Tensor):
+                kept.append((arg, t, "reset"))
         elif ev in ("systime=int", "systime=tensor"):
             t, arg = time_value(rng, "int" if ev == "systime=int" else "tensor")
+            if ev == "systime=tensor" and rng.random() < 0.3:
+                # the time of another system object of the same kind (two systems must keep separate clocks)
+                okc2, other = ck.call("lti_equations", f"{fam}/{model.layout}", f"{kind}.__init__", model.build)
+                if okc2:
+                    other.reset(t)
+                    arg = other.systime
             ck.call("systime_automaton", regime, f"{kind}.systime.setter", lambda: setattr(s, "systime", arg))
             auto.set(t)
             after_event(ck, s, auto, kind, ev, seq_key, step)
+            if isinstance(arg, torch.Tensor):
+                kept.append((arg, t, "systime.setter"))
+                ck.mark("event/systime=tensor/kept")
         elif ev == "set_refpoint()":
             # documented default t=None: "the most recent timestamp is taken" -- must not raise, time unchanged
             ck.call("systime_automaton", regime, f"{kind}.set_refpoint", lambda: s.set_refpoint(),
@@ -691,7 +708,7 @@ def run(ck):
            "eval()/train()"]
     for kind in ("LTI", "LTV", "NLS"):
         ck.require(*[f"event/{kind}/{e}" for e in evs])
-    ck.require("event/LTI/set_refpoint(t)", "event/LTV/set_refpoint(t)", "event/NLS/set_refpoint(x,u,t)",
+    ck.require("event/systime=tensor/kept", "event/LTI/set_refpoint(t)", "event/LTV/set_refpoint(t)", "event/NLS/set_refpoint(x,u,t)",
                "event/NLS/set_refpoint(partial)", "event/NLS/read-properties")
     ck.require("NLS/explicit-refpoint", "NLS/default-refpoint", "NLS/partial-refpoint", "NLS/read-after-further-calls",
                "NLS/default-refpoint/read-after-further-calls",
